@@ -70,7 +70,7 @@ _ANSWERS = {}
 
 
 def prepare_answer(uid, ttl, abs_exp, res=None):
-    """For whole-second TTLs three puts in four store a *real* dns.resolver.Answer built from a
+    """For whole-second TTLs four puts in five store a *real* dns.resolver.Answer built from a
     response (the answer behind a CNAME with the smaller TTL on either side, or a negative answer
     whose lifetime comes from the SOA); its expiration must be now + the minimum TTL."""
     import dns.message
@@ -79,10 +79,10 @@ def prepare_answer(uid, ttl, abs_exp, res=None):
     import dns.rdatatype
     import dns.rdataclass
 
-    if uid % 4 == 0 or ttl < 0 or abs(round(ttl) - ttl) > 1e-9:
+    if uid % 5 == 0 or ttl < 0 or abs(round(ttl) - ttl) > 1e-9:
         return
     ttl = int(round(ttl))
-    variant = uid % 4
+    variant = uid % 5
     qname = dns.name.from_text(f"q{uid}.example.")
     q = dns.message.make_query(qname, "A")
     r = dns.message.make_response(q)
@@ -92,12 +92,17 @@ def prepare_answer(uid, ttl, abs_exp, res=None):
     elif variant == 2:
         r.answer.append(dns.rrset.from_text(qname, ttl + 300, "IN", "CNAME", "t.other.test."))
         r.answer.append(dns.rrset.from_text("t.other.test.", ttl, "IN", "A", "10.0.0.1"))
+    elif variant == 3:
+        r.authority.append(dns.rrset.from_text("example.", ttl + (5 if uid % 2 else 0), "IN", "SOA", f"ns. h. 1 2 3 4 {ttl if uid % 2 else ttl + 9}"))
     else:
-        r.authority.append(dns.rrset.from_text("example.", ttl + (5 if uid % 8 == 3 else 0), "IN", "SOA", f"ns. h. 1 2 3 4 {ttl if uid % 8 == 3 else ttl + 9}"))
+        # no data at the end of a CNAME chain that leaves the zone: the negative lifetime comes from
+        # the SOA of the zone the chain ends in
+        r.answer.append(dns.rrset.from_text(qname, ttl + 300, "IN", "CNAME", "t.other.test."))
+        r.authority.append(dns.rrset.from_text("other.test.", ttl + (5 if uid % 2 else 0), "IN", "SOA", f"ns. h. 1 2 3 4 {ttl if uid % 2 else ttl + 9}"))
     r = dns.message.from_wire(r.to_wire())
     ans = _R.Answer(qname, dns.rdatatype.A, dns.rdataclass.IN, r)
     if abs(ans.expiration - abs_exp) > 1e-6:
-        raise Violation("C17:answer-expiration", f"an Answer built at {VT.now} from a response whose minimum TTL is {ttl}s ({['', 'CNAME TTL below the address TTL', 'address TTL below the CNAME TTL', 'negative answer, SOA'][variant]}) expires at {ans.expiration}, not at {abs_exp}")
+        raise Violation("C17:answer-expiration", f"an Answer built at {VT.now} from a response whose minimum TTL is {ttl}s ({['', 'CNAME TTL below the address TTL', 'address TTL below the CNAME TTL', 'negative answer, SOA', 'negative answer at the end of a CNAME chain into another zone'][variant]}) expires at {ans.expiration}, not at {abs_exp}")
     ans.uid = uid
     _ANSWERS[uid] = ans
     if res is not None:
@@ -205,7 +210,8 @@ def r_apply(cache, kind, op, keys):
         v = cache.get(keys[op[1]])
         return None if v is None else v.uid
     if o == "put":
-        return cache.put(keys[op[1]], _ANSWERS.get(op[2]) or FakeAnswer(op[3], op[2]))
+        real = _ANSWERS.get(op[2])  # (a negative Answer is falsy: test identity, not truth)
+        return cache.put(keys[op[1]], real if real is not None else FakeAnswer(op[3], op[2]))
     if o == "flush":
         return cache.flush(keys[op[1]])
     if o == "flushall":
